@@ -114,6 +114,10 @@ def run(ctx):
     ctx.rule("C05-R5", "control-stream runner futures are re-created by the select loop, so they keep no state of their own across an await: only borrows of self")
     own_state(ctx, idx)
 
+    ctx.rule("C05-R6", "buffered readers consume nothing of an incomplete frame: the child reader is committed only when a frame was returned")
+    from rules import shared
+    shared.from_buffer_commit(ctx, "C05-R6")
+
     ctx.rule("C05-R2", "inventory of every await of a progress-carrying future with its cancellation context")
     spawned = {cor for _, _, cor in idx.spawn_sites() if cor}
     inv = []
